@@ -1771,7 +1771,9 @@ theorem stOk_one (r : S_cbor_decoder_result) (e : Event) : StOk (r, [e]) ↔ r.s
 theorem claim_status (a b : UInt64) (r : S_cbor_decoder_result) (h : (claim_bytes a b r).1 = true) :
     (claim_bytes a b r).2.status = r.status := by
   unfold claim_bytes at h ⊢
-  split <;> simp_all
+  simp only [] at h ⊢
+  repeat' split
+  all_goals simp_all
 
 theorem claim_imp (a b : UInt64) (r : S_cbor_decoder_result) :
     ((claim_bytes a b r).1 = true → (claim_bytes a b r).2.status = 0) ↔ ((claim_bytes a b r).1 = true → r.status = 0) :=
